@@ -362,16 +362,29 @@ def fixed_defs_and_cases():
     k128 = Def("FxK", "struct", "deep", [], [], [("N", "u128", 5)], [("x", u16)])
     ki128 = Def("FxKi", "enum", "none", [], [], [("N", "i128", -3)], [("A", "unit", []), ("B", "tuple", [("0", u8)])])
     gen = Def("FxGen", "struct", "none", [], ["A"], [], [("a", ("param", "A")), ("n", u8)])
-    defs = [tag, outer, wide, mid, k128, ki128, gen]
+    big = Def("FxBig", "struct", "zero", ["C", "align(128)"], [], [], [("x", u8)], align=128)
+    holder = Def("FxHolder", "struct", "deep", [], [], [], [("n", u16), ("b", ("adt", "FxBig", ()))])
+    defs = [tag, outer, wide, mid, k128, ki128, gen, big, holder]
     T = lambda name, *args: ("adt", name, tuple(args))
     cases = [
         (T("FxOuter"), [("s", [("t", 1, [n(7)]), n(258), n(1 << 40)]), ("s", [("t", 0, []), n(1), n(2)])]),
         (("vec", T("FxOuter")), [("s", [("s", [("t", 1, [n(9)]), n(3), n(4)])])]),
         (T("FxMid"), [("s", [n(1), ("t", 0, [n(2), n(3)]), n(4), n(5)]), ("s", [n(1), ("t", 2, [n(1 << 50)]), n(4), n(5)])]),
         (("arr", 2, T("FxWide")), [("s", [("t", 1, []), ("t", 0, [n(8), n(9)])])]),
+        # a native alignment beyond what load_mem guarantees (its pre-check), alone, in a vector, in a deep struct
+        (T("FxBig"), [("s", [n(7)])]),
+        (("vec", T("FxBig")), [("s", [("s", [n(1)]), ("s", [n(2)])])]),
+        (T("FxHolder"), [("s", [n(300), ("s", [n(9)])])]),
         (T("FxK"), [("s", [n(77)])]),
+        (("rfull",), [("s", [])]),
+        (("opt", ("rfull",)), [("t", 1, [("s", [])])]),
         (T("FxKi"), [("t", 1, [n(5)]), ("t", 0, [])]),
     ]
+    # every primitive on the eps-copy path (inside an Option) with a boundary value
+    for p in PRIMS:
+        sz = PSIZE[p]
+        top = {"bool": 1, "char": 0x10FFFF, "f32": 0x7fc00001, "f64": 0x7ff8000000000001}.get(p, (1 << (8 * sz)) - 1)
+        cases.append((("opt", ("prim", p)), [("t", 1, [n(top)])]))
     return defs, cases
 
 
@@ -454,6 +467,8 @@ def write_gen_workspace(U, cases, gdir, shards=GEN_SHARDS):
                 tu = type_of_tid[tidu]
                 crosses += "\n    cross_case::<%s, %s>(\"%s\", \"%s\", &mk, ops, arena, out);" % (st, rust_ty(U, sertype(U, tu), "'static"), c.cid, tidu)
             crosses += "\n    load_case::<%s, %s>(\"%s\", &mk, ops, out);" % (st, dt, c.cid)
+            if not getattr(c, "liar", False):
+                crosses += "\n    sfeed_case::<%s>(\"%s\", ops, out);" % (rust_ty(U, c.t, "'static"), c.cid)
             if not ser_only(sertype(U, c.t)):
                 crosses += "\n    dty_case::<%s, %s>(\"%s\", ops, out);" % (dt, rust_ty(U, desertype(U, sertype(U, c.t)), "'static"), c.cid)
             body.append("fn case_%s(ops: &[String], arena: &mut Arena, out: &mut String) {\n    %s\n    let mk = || -> %s { %s };\n    run_case::<%s, %s>(\"%s\", &mk, ops, arena, out);%s\n}" % (
@@ -589,14 +604,14 @@ def run_impl(parts, ops_of, gdir, tdir, tag, binprefix="evc_s", bindir="debug"):
                 during, after = None, []
                 for i, op in enumerate(wanted):
                     base = op.split(":")[0]
-                    if base in ("cross", "load", "dty"):
+                    if base in ("cross", "load", "dty", "sfeed"):
                         continue     # run by the generated code after the others
                     if not any(cid == crashed.cid and (kind == op or kind.split(":")[0] == base) for (cid, kind) in o):
                         during, after = base, wanted[i + 1:]
                         break
                 if during is None:
                     # the operations run by the generated code after run_case, in its order
-                    for base in ("cross", "load", "dty"):
+                    for base in ("cross", "load", "sfeed", "dty"):
                         want = [op for op in wanted if op.split(":")[0] == base]
                         if want and not any(cid == crashed.cid and kind.split(":")[0] == base for (cid, kind) in o):
                             during = base
@@ -876,6 +891,7 @@ def run_campaign(tier):
             return ["hdr", "ser", "full", "eps:0", "alloc:0"]
         if not ser_only(sertype(c.U, x.t)):
             ops += ["alloc:0", "dty"]
+        ops.append("sfeed")
         return ops
 
     t1 = time.time()
@@ -920,6 +936,8 @@ def run_campaign(tier):
             cr.append("alloc:" + b)
         if (x.cid, "dty") in c.iobs:
             cr.append("dty")
+        if (x.cid, "sfeed") in c.iobs:
+            cr.append("sfeed")
         return cr + ["tinfo", "ser", "feed", "full", "eps:" + b, "schema", "wfault:%d" % c.steps[x.cid], "rfault:%d" % c.steps[x.cid], "flips:" + b, "place:" + b,
                 "cuts:%s:%d" % (b, c.steps[x.cid]),
                 "tags:%s:%s" % (b, ",".join(str(n) for n in c.tagc[x.cid]))]
